@@ -1,6 +1,7 @@
 #!/usr/bin/env python3
 """developer helper: dev.py <unit> [run-id ...]  -- extract + run, print obligations summary"""
 import sys, os, json
+os.environ['VERIF_KEEP'] = '1'
 sys.path.insert(0, os.path.dirname(os.path.abspath(__file__)))
 import runner, cxx2c
 unit = runner.load_unit(sys.argv[1])
